@@ -42,7 +42,8 @@ def py_atom(a):
     if k == 'bool':
         return bool(a[1])
     if k == 'float':
-        return a[1] + 0.5
+        # even token: an integral-valued float (60.0 == 60 but is not an Integral); odd token: tok + 0.5
+        return float(a[1]) if a[1] % 2 == 0 else a[1] + 0.5
     if k == 'str':
         return a[1]
     if k == 'none':
@@ -105,8 +106,11 @@ def in_domain(name, v):
 def canon_time(t):
     if isinstance(t, bool) or isinstance(t, int):
         return [0, int(t)]
-    if isinstance(t, float) and (t - 0.5) == int(t - 0.5):
-        return [2, int(t - 0.5)]
+    if isinstance(t, float) and t == t and abs(t) < 2 ** 52:
+        if t == int(t) and int(t) % 2 == 0:
+            return [2, int(t)]
+        if (t - 0.5) == int(t - 0.5) and int(t - 0.5) % 2 != 0:
+            return [2, int(t - 0.5)]
     return [9]
 
 
@@ -122,7 +126,7 @@ def canon_exn(e):
 
 VALUES_INT = lambda lo, hi: [('int', lo - 1), ('int', lo), ('int', lo + 1), ('int', (lo + hi) // 2), ('int', hi - 1), ('int', hi),
                              ('int', hi + 1), ('int', 2 ** 63), ('int', -2 ** 63), ('int', 128), ('int', 256)]
-VALUES_ODD = [('float', 1), ('float', 0), ('str', '1'), ('str', ''), ('str', 'ab'), ('none',), ('other',), ('bool', True), ('bool', False),
+VALUES_ODD = [('float', 1), ('float', 0), ('float', 64), ('float', 126), ('float', 14), ('float', 2), ('str', '1'), ('str', ''), ('str', 'ab'), ('none',), ('other',), ('bool', True), ('bool', False),
               ('seq', []), ('seq', [('int', 1)]), ('seq', [('int', 1), ('int', 2)]), ('bytes', [1, 2]), ('bytes', [200])]
 VALUES_DATA = [('seq', []), ('seq', [('int', 0), ('int', 127)]), ('seq', [('int', 128)]), ('seq', [('int', -1)]), ('seq', [('int', 1), ('float', 1)]),
                ('seq', [('bool', True), ('int', 5)]), ('seq', [('str', '1')]), ('seq', [('none',)]), ('seq', [('other',)]),
